@@ -247,7 +247,54 @@ func VerifClosedFlag[K Key, V any](c *Cache[K, V]) unsafe.Pointer {
 	if f, ok := verifPath(c, "isClosed"); ok && f.CanAddr() {
 		return unsafe.Pointer(f.UnsafeAddr())
 	}
+	// renamed? the lifecycle word is the only atomic scalar the Cache struct itself holds
+	v := reflect.ValueOf(c).Elem()
+	var found []reflect.Value
+	for i := 0; i < v.NumField(); i++ {
+		if f := v.Field(i); f.Kind() == reflect.Struct && f.CanAddr() {
+			if pk := f.Type().PkgPath(); pk == "verif/shim/vatomic" || pk == "sync/atomic" {
+				found = append(found, f)
+			}
+		}
+	}
+	if len(found) == 1 {
+		return unsafe.Pointer(found[0].UnsafeAddr())
+	}
 	return nil
+}
+
+// VerifMetricCellAddrs returns the address of every uint64 counter reachable from Metrics.all.
+func VerifMetricCellAddrs(m *Metrics) (out []unsafe.Pointer) {
+	if m == nil {
+		return nil
+	}
+	all, ok := verifPath(m, "all")
+	if !ok {
+		return nil
+	}
+	var walk func(v reflect.Value)
+	walk = func(v reflect.Value) {
+		switch v.Kind() {
+		case reflect.Uint64:
+			if v.CanAddr() {
+				out = append(out, unsafe.Pointer(v.UnsafeAddr()))
+			}
+		case reflect.Pointer, reflect.Interface:
+			if !v.IsNil() {
+				walk(v.Elem())
+			}
+		case reflect.Slice, reflect.Array:
+			for i := 0; i < v.Len(); i++ {
+				walk(v.Index(i))
+			}
+		case reflect.Struct:
+			for i := 0; i < v.NumField(); i++ {
+				walk(v.Field(i))
+			}
+		}
+	}
+	walk(all)
+	return out
 }
 
 func VerifMaxCostCell[K Key, V any](c *Cache[K, V]) unsafe.Pointer {
